@@ -19,7 +19,9 @@ Inductive case :=
 | Fwd (buf : bytes) (from_client : bool) (sent : result bytes) (preserved : bool)
 | Ref (buf : bytes) (canon : option bytes)
 (* record_data_can_have_compression t, pinned against the list in Model/DnsNames.v *)
-| Comp (t : N) (b : bool).
+| Comp (t : N) (b : bool)
+(* length-prefixed pipelined messages over TCP through the real layer: every byte sent on, and whether a connection was closed *)
+| Tcp (msgs : list bytes) (out : bytes) (closed : bool).
 
 Definition check_case (c : case) : bool :=
   match c with
@@ -31,4 +33,9 @@ Definition check_case (c : case) : bool :=
          end
   | Ref buf canon => option_eqb bytes_eqb (ref_canon buf) canon
   | Comp t b => Bool.eqb (record_data_can_have_compression t) b
+  | Tcp msgs out closed =>
+      match forward_tcp_stream msgs with
+      | Some o => bytes_eqb o out && negb closed
+      | None => true     (* a message that is rejected, fails, or is outside the IDNA fragment: segment-level behaviour is C27 *)
+      end
   end.
